@@ -1,9 +1,11 @@
 (* statement pins and axiom audit for C09 (compiled on every check; regenerate BY HAND with driver/mkpins.py) *)
+From Coq Require Import Permutation.
 From ChiaV.Base Require Import Bytes.
 From ChiaV.Clvm Require Import Sexp TreeHash.
-From ChiaV.Gen Require Import ChainConsts.
+From ChiaV.Gen Require Import Opcodes ChainConsts.
 From ChiaV.Cond Require Import Model.
 From ChiaV.Chain Require Import Backref Rom Generator GeneratorSpec Trusted TrustedSpec TrustedProofs TrustedRebuildProofs.
+From ChiaV.Chain Require Import TrustedOrderSpec TrustedOrderProofs.
 Open Scope N_scope.
 From ChiaV.Props Require Import C09.
 Check C09_additions_and_removals :
@@ -92,6 +94,46 @@ Check C09_build_generator_reverses :
   Forall2 (fun c it => spend_item c = Some it) l items ->
   forall acc, prepend_spends l acc = Some (fold_right Pair acc (rev items)).
 Print Assumptions C09_build_generator_reverses.
+Check C09_rebuild_in_order :
+  forall run valid_key sig_ok H K,
+  run_intrinsic_hyp run -> run_quote_exact_hyp run ->
+  (forall l l' : list (bytes * bytes), Permutation l l' -> sig_ok l = sig_ok l') ->
+  forall program refs max_cost gf b spends pairs,
+    run_block_generator2 run valid_key sig_ok H K program refs max_cost gf = Ok (b, spends, pairs) ->
+    max_cost <= MAX_BLOCK_COST_CLVM ->
+    g_interned gf = false -> N.of_nat (length spends) <= MAX_SPENDS_PER_BLOCK ->
+    exists out iter cs,
+      native_generator_output run program refs max_cost gf = Ok out /\ first out = Ok iter /\
+      get_coinspends_for_trusted_block run H program refs gf = Ok cs /\
+      (Forall fits_tuple (spend_tuples iter) ->
+       forall pF pR m,
+         solution_generator cs = Some pF -> solution_generator (rev cs) = Some pR ->
+         match run_block_generator2 run valid_key sig_ok H K pF [] (m + REBUILD_OVERHEAD) gf,
+               run_block_generator2 run valid_key sig_ok H K pR [] (m + REBUILD_OVERHEAD) gf return Prop with
+         | Ok sF, Ok sR => reversed_summary sF sR /\ neutral sR = neutral (b, spends, pairs) /\
+                           reversed_of_original sF (b, spends, pairs)
+         | Err _, Err eR => eR = CostExceeded
+         | _, _ => False
+         end).
+Print Assumptions C09_rebuild_in_order.
+Check C09_intrinsic_implies_exact :
+  forall run, run_intrinsic_hyp run -> run_exact_hyp run.
+Print Assumptions C09_intrinsic_implies_exact.
+Check C09_quote_exact_implies_quote :
+  forall run, run_quote_exact_hyp run -> run_quote_hyp run.
+Print Assumptions C09_quote_exact_implies_quote.
+Check C09_rebuild_in_order_example :
+  exists run H, run_oracle_ok run H /\ run_intrinsic_hyp run /\ run_quote_exact_hyp run /\
+  exists vk sig K program max_cost gf b spends pairs cs pF sF m,
+    (forall l l' : list (bytes * bytes), Permutation l l' -> sig l = sig l') /\
+    run_block_generator2 run vk sig H K program [] max_cost gf = Ok (b, spends, pairs) /\
+    length spends = 2%nat /\
+    get_coinspends_for_trusted_block run H program [] gf = Ok cs /\
+    solution_generator cs = Some pF /\ pF <> program /\
+    run_block_generator2 run vk sig H K pF [] (m + REBUILD_OVERHEAD) gf = Ok sF /\
+    reversed_of_original sF (b, spends, pairs) /\
+    map erase_flags (map erase_s (snd (fst sF))) <> map erase_flags (map erase_s spends).
+Print Assumptions C09_rebuild_in_order_example.
 Check C09_spend_bundle_additions :
   forall run valid_key sig_ok H K, run_exact_hyp run ->
   forall program refs max_cost gf b spends pairs,
